@@ -34,6 +34,12 @@ type pair struct {
 type stamp struct{ Sec, Loc int64 }
 
 func (s stamp) IsZero() bool   { return s.Sec == 0 }
+
+// odd is a comparable type whose IsZero() is FALSE for its own zero value and true for one non-zero value:
+// typ.IsZero must still report the zero value as zero (value == zero is checked first, the method only otherwise).
+type odd struct{ N int64 }
+
+func (o odd) IsZero() bool { return o.N == 7 }
 func (s stamp) String() string { return fmt.Sprintf("stamp(%d,%d)", s.Sec, s.Loc) }
 
 type (
@@ -239,7 +245,7 @@ var utilTypes = map[string][]string{
 	"Coal":      {"int", "string", "float", "pair", "ptr", "iface"},
 	"Zero":      {"int", "string", "float", "pair", "ptr", "iface", "stamp", "slice", "map", "array", "func"},
 	"ZeroOf":    {"int", "string", "float", "pair", "ptr", "iface", "stamp", "slice"},
-	"IsZero":    {"int", "string", "float", "pair", "ptr", "stamp", "stamp", "zeroer", "any"},
+	"IsZero":    {"int", "string", "float", "pair", "ptr", "stamp", "stamp", "zeroer", "any", "odd", "stampptr"},
 	"Tern":      {"int", "string", "pair", "ptr"},
 	"TernCast":  {"int", "string", "stringer", "any"},
 	"Ref":       {"int", "string", "pair", "ptr", "iface"},
@@ -413,6 +419,30 @@ func RunUtil(c Util) pbt.Outcome {
 			s := stamp{c.int(0), c.int(1)}
 			want := stampClass(s)
 			msg = isZeroCheck("stamp", s, want)
+		case "odd":
+			o := odd{mod(c.int(0), 9)}
+			switch {
+			case o == odd{}:
+				class = "iszero:zero-value-with-method-saying-false"
+			case o.N == 7:
+				class = "iszero:method-true-on-nonzero-value"
+			default:
+				class = "iszero:method-false"
+			}
+			msg = isZeroCheck("odd", o, o == odd{} || o.N == 7)
+		case "stampptr": // pointer to a type with a value-receiver IsZero: the nil pointer is the zero value (and must not be dereferenced)
+			if c.Cond {
+				class = "iszero:nil-pointer-with-value-receiver-method"
+				msg = isZeroCheck[*stamp]("*stamp", nil, true)
+			} else {
+				sp := &stamp{c.int(0), c.int(1)}
+				want := sp.Sec == 0
+				class = "iszero:method-false"
+				if want {
+					class = "iszero:method-true-on-nonzero-value"
+				}
+				msg = isZeroCheck("*stamp", sp, want)
+			}
 		case "zeroer": // T is an interface type with the method; nil interface is the zero value
 			if c.Cond {
 				class = "iszero:zero-value"
